@@ -4,6 +4,7 @@ import (
 	"bytes"
 	"encoding/json"
 	"fmt"
+	"os"
 	"strings"
 	"verif/mapseam"
 
@@ -24,6 +25,8 @@ type c10Case struct {
 	// 3 = three of each; KS: map-iteration start while the rendering is parsed (the parser walks the address headers of a map)
 	Rcpt int `json:"rcpt,omitempty"`
 	KS   int `json:"ks,omitempty"`
+	// Entry: the parser's entry point: 0 EMLToMsgFromReader, 1 EMLToMsgFromString, 2 EMLToMsgFromFile
+	Entry int `json:"entry,omitempty"`
 }
 
 var c10Extra = []string{"Zoë Ångström <zoe@rcp.example>", "Plain Name <plain@rcp.example>", "third@rcp.example", "\"Last, First\" <lf@rcp.example>"}
@@ -100,7 +103,24 @@ func c10Exec(r *vf.Run, k c10Case) []finding {
 	var parsed *mail.Msg
 	var perr error
 	pan, pw := vf.Guard(func() {
-		mapseam.With(k.KS, func() { parsed, perr = mail.EMLToMsgFromReader(bytes.NewReader(r1.Bytes())) })
+		mapseam.With(k.KS, func() {
+			switch k.Entry {
+			case 1:
+				parsed, perr = mail.EMLToMsgFromString(r1.String())
+			case 2:
+				f, ferr := os.CreateTemp(os.Getenv("VERIF_WORK"), "c10-*.eml")
+				if ferr != nil {
+					perr = ferr
+					return
+				}
+				defer os.Remove(f.Name())
+				_, _ = f.Write(r1.Bytes())
+				_ = f.Close()
+				parsed, perr = mail.EMLToMsgFromFile(f.Name())
+			default:
+				parsed, perr = mail.EMLToMsgFromReader(bytes.NewReader(r1.Bytes()))
+			}
+		})
 	})
 	if pan {
 		return []finding{{"panic/" + vf.PanicSite(pw), firstLine(pw)}}
@@ -531,9 +551,15 @@ func init() {
 	vf.Register(&vf.Check{
 		ID: "C10", Title: "render → parse → render preserves the message",
 		Run: func(r *vf.Run) {
-			r.SetRule("builder programs inside the parser's feature set: body text/plain with optional text/html alternative × 0..2 attachments × 0..2 embeds (also files that share a name, or name and content) × message encoding {QP, base64, 8bit, 7bit} × per-part encodings × 6 text contents ('=', dots, UTF-8, long lines, LF-only, no final newline) plus every body part empty / one byte / a bare line break in every structure × 4 file contents × 22 file names (inner / leading / trailing blanks and Unicode spaces, non-ASCII, ';', '=') and a sweep of 105 code points (all of U+00A1..U+00FF, 3- and 4-byte ones) at the three base64 alignments under both header encoders × every combination of Content-ID / description / media-type option on attachments and embeds × 5 subjects × 5 display names (RFC 2047, comma, 80 chars) × To and Cc lists of different lengths parsed under every map-iteration start; each is rendered, the rendering is checked with the independent reader (precondition), parsed with EMLToMsgFromReader, compared with the model through the Msg getters, rendered again and compared again through the independent reader; distinct by program")
+			r.SetRule("builder programs inside the parser's feature set: body text/plain with optional text/html alternative × 0..2 attachments × 0..2 embeds (also files that share a name, or name and content) × message encoding {QP, base64, 8bit, 7bit} × per-part encodings × 6 text contents ('=', dots, UTF-8, long lines, LF-only, no final newline) plus every body part empty / one byte / a bare line break in every structure × 4 file contents × 22 file names (inner / leading / trailing blanks and Unicode spaces, non-ASCII, ';', '=') and a sweep of 105 code points (all of U+00A1..U+00FF, 3- and 4-byte ones) at the three base64 alignments under both header encoders × every combination of Content-ID / description / media-type option on attachments and embeds × 5 subjects × 5 display names (RFC 2047, comma, 80 chars) × To and Cc lists of different lengths parsed under every map-iteration start; each is rendered, the rendering is checked with the independent reader (precondition), parsed with EMLToMsgFromReader (and once more with EMLToMsgFromString or EMLToMsgFromFile), compared with the model through the Msg getters, rendered again and compared again through the independent reader; distinct by program")
 			r.Assume("messages whose first rendering is already wrong are C01's business and skipped here", "the parser may choose other transfer encodings on re-rendering; contents are compared decoded (QP text modulo LF->CRLF)")
 			cases := c10Specs(r.Thorough)
+			// the other two entry points of the parser: every program once more, alternating between them
+			for i, n := 0, len(cases); i < n; i++ {
+				c := cases[i]
+				c.Entry = 1 + i%2
+				cases = append(cases, c)
+			}
 			r.Extra("programs", len(cases))
 			defer r.Reached("reached/recipient-lists=1", "reached/recipient-lists=2", "reached/recipient-lists=3")
 			r.Parallel(len(cases), "C10 programs", func(i int) {
